@@ -365,10 +365,28 @@ func connerrScenario(s *Sim, params map[string]string) {
 			follow = 6
 			desc += " (replaced by Brokers: see the note on ApiVersions)"
 		}
+		// deadline pattern of every other error-code case: the first operation
+		// runs under a deadline of its own kind only (300 ms), which has long
+		// passed when the follow-up starts with no deadline at all
+		lapsed := (idx/5)%2 == 1 && framing == "" && op != 12 && follow != 12
+		if lapsed {
+			conn.SetDeadline(time.Time{})
+			if op == 0 || op == 9 || op == 10 {
+				conn.SetWriteDeadline(time.Now().Add(300 * time.Millisecond))
+			} else {
+				conn.SetReadDeadline(time.Now().Add(300 * time.Millisecond))
+			}
+			desc += " (the first operation under a 300 ms deadline of its own kind, the follow-up 400 ms later without any)"
+			s.Count("lapsed-deadline-pattern")
+		}
 		armed = true
 		errA, wrongA := env.doOp(op, "a")
 		armed = false
 		s.Count("ops")
+		if lapsed {
+			s.Sleep(400 * time.Millisecond)
+			conn.SetDeadline(time.Time{})
+		}
 		if wrongA != "" {
 			s.Fail("C11", "R3-wrong-value", "%s: first operation: %s", desc, wrongA)
 			return
